@@ -18,3 +18,5 @@ open RV.C06
 #print axioms patch_text_roundtrip
 #print axioms patch_text_apply
 #print axioms patch_operation_doc
+#print axioms trig_loop_refines
+#print axioms each_triple_one_block_trig_loop
